@@ -60,6 +60,8 @@ func (config Config) New(session *packet.Session) (h *Handler, err error) {
 
 // Close the handler and terminate all internal goroutines
 func (h *Handler) Close() error {
+	h.arpMutex.Lock() // closed is read by the spoof loops under the mutex
+	defer h.arpMutex.Unlock()
 	if h.closed {
 		return nil
 	}
